@@ -57,8 +57,10 @@ def cases(draw, method=None):
     else:
         factors = [draw(st.integers(1, 4)) for _ in range(3)]
         outside = None
+    # "auto" is the command-line default: the method follows the dataset type
+    auto = method in ("average", "stride") and draw(st.integers(0, 2)) == 0
     return {"method": method, "dtype": dtype, "shape": shape, "data": data,
-            "factors": factors, "outside": outside}
+            "factors": factors, "outside": outside, "auto": auto}
 
 
 def build(case):
@@ -70,6 +72,12 @@ def get_downscaler(case):
     opts = {}
     if case["outside"] is not None:
         opts["outside_value"] = float(case["outside"])
+    if case.get("auto"):
+        info = {"type": {"average": "image",
+                         "stride": "segmentation"}[case["method"]],
+                "data_type": case.get("dtype", "uint8"), "num_channels": 1,
+                "scales": []}
+        return get_downscaler("auto", info, opts)
     return get_downscaler(case["method"], None, opts)
 
 
